@@ -340,8 +340,13 @@ def v2_facts(ctx, cls):
     # buffer slice discipline
     arg = hcall.args[0] if hcall.args else None
     buf = szn = None
+    views = {}
+    for n in own_nodes(fn.node):
+        if isinstance(n, ast.Assign) and len(n.targets) == 1 and isinstance(n.targets[0], ast.Name) and isinstance(n.value, ast.Call) and norm(n.value.func) == "memoryview" \
+                and len(n.value.args) == 1 and isinstance(n.value.args[0], ast.Name):
+            views[n.targets[0].id] = n.value.args[0].id
     if isinstance(arg, ast.Subscript) and isinstance(arg.slice, ast.Slice) and arg.slice.lower is None and isinstance(arg.slice.upper, ast.Name) and isinstance(arg.value, ast.Name):
-        buf, szn = arg.value.id, arg.slice.upper.id
+        buf, szn = views.get(arg.value.id, arg.value.id), arg.slice.upper.id
     elif isinstance(arg, ast.Name):
         buf = arg.id
     reads = [n for n in own_nodes(fn.node) if isinstance(n, ast.Assign) and isinstance(n.value, ast.Call) and isinstance(n.value.func, ast.Attribute)
@@ -349,7 +354,7 @@ def v2_facts(ctx, cls):
     rd = [r for r in reads if r.value.args[0].id == buf]
     if buf and szn and rd and isinstance(rd[0].targets[0], ast.Name) and rd[0].targets[0].id == szn:
         F["leaf.input"] = Fact("buf[:n], n = readinto(buf)", arg, fn)
-    elif buf and not szn:
+    elif buf and not szn and rd:
         F["leaf.input"] = Fact("whole buffer (stale bytes of a short read are hashed)", arg, fn)
     else:
         F["leaf.input"] = Fact("?" + norm(arg), arg, fn)
@@ -387,7 +392,10 @@ def v2_facts(ctx, cls):
             if isinstance(st, ast.If) and isinstance(st.test, ast.Compare) and norm(st.test.left) == szn and isinstance(st.test.ops[0], ast.Eq) \
                     and fold_int(st.test.comparators[0]) == 0 and any(isinstance(x, ast.Break) for x in st.body) and st.lineno < leaf_append.lineno:
                 ok_break = True
-    F["eof.break"] = Fact("a zero-length read leaves the block loop before hashing" if ok_break else "a zero-length read is hashed as a block", loop, fn)
+    if loop is None or not szn:
+        F["eof.break"] = und("the read loop / the variable holding the read size was not identified", loop, fn)
+    else:
+        F["eof.break"] = Fact("a zero-length read leaves the block loop before hashing" if ok_break else "a zero-length read is hashed as a block", loop, fn)
     for n in own_nodes(fn.node):
         if isinstance(n, ast.Call) and isinstance(n.func, ast.Attribute) and n.func.attr == "append" and isinstance(n.func.value, ast.Attribute) and n.args:
             a = n.args[0]
@@ -409,6 +417,7 @@ def v2_facts(ctx, cls):
         pexpr = pst.args[0] if ext else pst.value
         local_defs, env = env_at(H, fn, ctx.prog.enclosing_stmt(pst))
         r = rep_of(H, pexpr, fn, env, local_defs)
+        pad_understood = r is not None
         if r is None:
             F["pad.count"] = und("padding list not of the form [zero]*n", pexpr, fn)
             F["pad.elem"] = und("padding list not of the form [zero]*n", pexpr, fn)
@@ -428,7 +437,8 @@ def v2_facts(ctx, cls):
                 if lab == "false":
                     op = {"Eq": "NotEq", "NotEq": "Eq", "Lt": "GtE", "GtE": "Lt", "Gt": "LtE", "LtE": "Gt"}.get(op, op)
                 gtxt.append("len(blocks) %s %r" % (op, rv))
-        F["pad.guard"] = Fact(" & ".join(sorted(gtxt)) or "unconditional", pst, fn)
+        F["pad.guard"] = Fact(" & ".join(sorted(gtxt)) or "unconditional", pst, fn) if (pad_understood or gtxt) else \
+            und("the padding comes from a helper that is not understood; its guard may live there", pst, fn)
     # ---- layer hash and its list
     LH = None
     for n in own_nodes(fn.node):
@@ -496,6 +506,7 @@ def v2_facts(ctx, cls):
                 r = ("rep", elem_desc(H, val, rf, env2, ld2), piecewise_nf(H, p.iter.args[0], rf, env2, ld2))
         else:
             r = rep_of(H, val, rf, env2, ld2)
+        root_understood = r is not None
         if r is None:
             F["root.pad.count"] = und("root padding not of the form [pad]*n", val, rf)
             F["root.pad.elem"] = und("root padding not of the form [pad]*n", val, rf)
@@ -515,7 +526,8 @@ def v2_facts(ctx, cls):
                 if lab == "false":
                     op = {"Gt": "LtE", "GtE": "Lt", "Lt": "GtE", "LtE": "Gt", "Eq": "NotEq", "NotEq": "Eq"}.get(op, op)
                 gt.append("%s %s %r" % (repr(lv).replace("len(self.%s)" % LH, "len(layer_hashes)"), op, rv))
-        F["root.pad.guard"] = Fact(" & ".join(sorted(gt)) or "unconditional", st, rf)
+        F["root.pad.guard"] = Fact(" & ".join(sorted(gt)) or "unconditional", st, rf) if (root_understood or gt) else \
+            und("the root padding comes from a helper that is not understood; its guard may live there", st, rf)
         rn = C.stmt_node(ctx, rf, root_st)
         if not (rn in g.reachable(sn) and sn not in g.reachable(rn)):
             F["root"] = Fact("root computed BEFORE the layer is padded to a power of two", root_st, rf)
@@ -572,7 +584,7 @@ ACCEPT = {
 
 def normalise_fact(key, value):
     """Bring equivalent spellings to the specification's spelling."""
-    if value is None:
+    if value is None or value == UND or (isinstance(value, str) and value.startswith("?")):
         return value
     v = value
     if key == "pad.count":
